@@ -132,7 +132,7 @@ theorem nodeStep_owed {env a nd child r} (h : nodeStep env a nd child = some r) 
 
 /-- What an action of node `nd` (result `rnd`) may do to one of its children. -/
 def CE (env : Env) (a : NAct) (nd rnd : Nd) (x x' : Nd) : Prop :=
-  (x' = x ∧ a ≠ .exit) ∨
+  (x' = x ∧ a ≠ .exit ∧ a ≠ .putErr ∧ (a = .take → ¬ (fwd nd.kind = true ∧ nd.hand = 0 ∧ rnd.hand = 1))) ∨
   (a = .take ∧ x' = { x with owed := 1 } ∧ fwd nd.kind = true ∧ nd.hand = 0 ∧ rnd.hand = 1) ∨
   (a = .put ∧ x' = { x with inq := x.inq + 1, ent := x.ent + 1, owed := 0 } ∧ 0 < x.owed ∧ x.inq < env.cap ∧
     fwd nd.kind = true ∧ nd.hand = 1 ∧ nd.done = false ∧ nd.failed = false) ∨
@@ -290,7 +290,9 @@ theorem tnode_spec {env : Env} {par : List Nat} {ns ns' : List Nd} {i : Nat} {a 
             simp only [Bool.and_eq_true, beq_iff_eq] at hn'
             refine Or.inr (Or.inl ⟨rfl, ?_, hn'.1.1, hn'.1.2, hn'.2⟩)
             simp only [childEff, hn, if_true]
-          · exact Or.inl ⟨by simp only [childEff, hn]; rfl, by simp⟩
+          · refine Or.inl ⟨by simp only [childEff, hn]; rfl, by simp, by simp, fun _ hh => hn ?_⟩
+            simp only [Bool.and_eq_true, beq_iff_eq]
+            exact ⟨⟨hh.1, hh.2.1⟩, hh.2.2⟩
         | put =>
           by_cases hck : curOf par ns i nd = some k
           · obtain ⟨hf, _, _, _⟩ := curOf_some hck
@@ -300,10 +302,10 @@ theorem tnode_spec {env : Env} {par : List Nat} {ns ns' : List Nd} {i : Nat} {a 
             have := nodeStep_put_some hs hf
             refine Or.inr (Or.inr (Or.inl ⟨rfl, ?_, hco, this.2.2.1, hf, this.2.2.2.1, this.2.2.2.2.1, this.2.2.2.2.2.1⟩))
             simp only [childEff, hck, if_true, this.2.1, Option.getD_some]
-          · exact Or.inl ⟨by simp only [childEff, hck, if_false], by simp⟩
+          · exact Or.inl ⟨by simp only [childEff, hck, if_false], by simp, by simp, by simp⟩
         | putErr => exact Or.inr (Or.inr (Or.inr (Or.inl ⟨rfl, by simp only [childEff]⟩)))
         | exit => exact Or.inr (Or.inr (Or.inr (Or.inr ⟨rfl, by simp only [childEff], (nodeStep_exit_done hs).1⟩)))
-        | init | enqDrop | closeOut | tick | handle | helperExit | timerFire => exact Or.inl ⟨by simp only [childEff], by simp⟩
+        | init | enqDrop | closeOut | tick | handle | helperExit | timerFire => exact Or.inl ⟨by simp only [childEff], by simp, by simp, by simp⟩
 
 /-- Every node of the list after a node action at `i`: the acting node, one of its children, or untouched. -/
 theorem TSpec.cases {env par ns ns' i a l nd r nd'} (h : TSpec env par ns ns' i a l nd r nd') :
